@@ -30,7 +30,7 @@ func init() {
 		docs := a[1].([]value)
 		fs.yamlDocs = append(fs.yamlDocs, docs)
 		p := fr.i.concStr(a[0])
-		fs.files[cleanPath(p)] = vfile{content: fmt.Sprintf("%s%d\n", yamlMarker, id)}
+		fs.files[fs.real(cleanPath(p))] = vfile{content: fmt.Sprintf("%s%d\n", yamlMarker, id)}
 		return nil
 	})
 	ext("gopkg.in/yaml.v3.NewDecoder", func(fr *frame, a []value) value {
@@ -290,7 +290,7 @@ func init() {
 		}
 		fs.yamlDocs = append(fs.yamlDocs, docs)
 		p := fr.i.concStr(a[0])
-		fs.files[cleanPath(p)] = vfile{content: fmt.Sprintf("%s%d\n", yamlMarker, id)}
+		fs.files[fs.real(cleanPath(p))] = vfile{content: fmt.Sprintf("%s%d\n", yamlMarker, id)}
 		return nil
 	}
 }
